@@ -42,21 +42,21 @@ ANCHORS = {'NmVerif.NN.convnd (convWeight, convInput, convCore, convBias, convSt
                'view::pairwise_distance, view::cosine_similarity, view::vector_norm, view::broadcast_arrays (view/pairwise_distance.hpp, cosine_similarity.hpp, vector_norm.hpp)',
            'NmVerif.NN.batchNorm / layerNorm / instanceNorm / groupNorm (normCore over Reduce.mean, Reduce.var; chanParam = atleastNd + moveLast; groupNormReshape / groupNormAxis / groupNormArgsReshape)':
                'view::batch_norm, layer_norm (index::layer_norm_axis), instance_norm, group_norm (index::group_norm_reshape, group_norm_axis, group_norm_args_reshape), view::mean, view::var, atleast_nd, moveaxis'}
-ASSUMPTIONS = ['the tree under test carries the fix commits of fixes/C17-conv-batch, C17-conv2d-dilation-pair, C17-pool-ceil-window, C17-max-pool-initial (the model mirrors the repaired code; the group interleaving of conv_reshape_weight and the unit-axis position of bilinear_input_reshape are mirrored as they are)',
+ASSUMPTIONS = ['the tree under test carries the fix commits of fixes/C17-conv-batch, C17-conv2d-dilation-pair, C17-pool-ceil-window, C17-max-pool-initial (the model mirrors the repaired code, incl. C17-bilinear-lead-axes; the group interleaving of conv_reshape_weight is mirrored as it is)',
                'shape_pool2d and the strided slice compute extents in float32 (ceil/floor of a float quotient): exact only while the quotient is representable (extents < 2^24); the model uses naturals',
                'k <= n for pooling (the C++ wraps in size_t otherwise; the reference rejects it)',
                'floating-point tolerance (4 ulp x terms) is a harness statement, not a Lean statement: the theorems about softmax, the norms, linear, pairwise_distance, cosine_similarity and avg pooling are over an abstract element type with opaque element operations and say which elements are combined in which order; the driver instantiates them at Float32 (IEEE single, libm expf/powf) for the correspondence run',
                'the conv theorems are stated over integer-valued arrays (Arr Int) for all inputs: an identity of term sets, not a statement about float rounding',
                'the element type of intermediate results (e.g. double inside vector_norm through std::pow(float, int)) is not modelled',
                'PyTorch itself is not available: the reference is lib/nn_ref_c17.py written from the documented formulas']
-PARTIAL = ['bilinear: the nested-loop definition is proved for rank-2 inputs (B, I) x (B, J) (bilinear_rank2_eq_def); for rank 1 and 3 (and rank 4 with middle leading extents of 1) the composition is modelled and compared with the real code and the oracle on every run but has no Lean theorem (missing: the matmulv2 term structure for the reshaped (B0, 1, B.., I) x (O, I, J) operands carried through multiply / sum / transpose); rank >= 4 in general is the known finding bilinear.lead-axes (bilinear_rank4_counterexample)',
+PARTIAL = ['bilinear: the nested-loop definition is proved for rank-2 inputs (B, I) x (B, J) (bilinear_rank2_eq_def); for rank 1 and 3 (and rank 4 with middle leading extents of 1) the composition is modelled and compared with the real code and the oracle on every run but has no Lean theorem (missing: the matmulv2 term structure for the reshaped (B0, 1, B.., I) x (O, I, J) operands carried through multiply / sum / transpose); rank >= 4 in general (repaired defect bilinear.lead-axes, instance bilinear_rank4_regression) likewise',
            'softmax / softmin / cosine_similarity are proved in the form the code computes (stabilised exponent, quotient summed term by term); equality with the textbook formula is proved under explicit algebraic laws of the element operations (softmax_eq_textbook, cosine_similarity_eq_textbook), which floating point satisfies only approximately',
            'batch_norm: theorem for rank-4 inputs (where the code agrees with PyTorch); other ranks are the known finding batch_norm.rank-not-4 (batch_norm_rank2_counterexample)',
            'conv1d theorem covers None | int argument forms (one plane); conv2d theorem covers None | int | pair forms',
            'conv*_eq_nested_loop (PyTorch group assignment) hold on groups = 1 or O = groups (outside: conv1d_groups_counterexample, conv2d_groups_counterexample); conv*_eq_code_loop hold for every groups with the code\'s assignment o % g']
 MANIFEST = dict(
     text='Proof: 31 Lean theorems. conv1d and conv2d: the mirrored view::convnd pipeline (reshape by groups, pad, sliding_window of input and of the dilation-expanded weight, multiply, sum, reshape, bias, strided slice) is defined, has the extent floor((n+2p-d(k-1)-1)/s)+1 per plane and each element is the nested loop over (channel, kernel) terms, for every batch, extent, kernel, stride, padding, dilation, groups and optional bias (None / int forms, and pairs for conv2d) with the code\'s group assignment o % g; equal to the PyTorch loop for groups = 1 or one output channel per group, with kernel-checked counterexamples outside. Pooling: shape_pool2d = PyTorch extents in floor and ceil mode (with the last-window rule), every window is non-empty, inside the input and equal to the clipped reference window, for any number of leading axes; max_pool2d = left fold of max over exactly that window from its first element (the greatest element over the integers), avg_pool2d = window sum / number of window elements, the divisor PyTorch uses without padding. Over an abstract element type with opaque operations, for all ranks, extents and axes: softmax / softmin (which elements enter the maximum and the normalising sum: the line through the index along the axis), linear (sum_i x[p,i] w[o,i] + b[o]), pairwise_distance, cosine_similarity, layer / instance / group norm (mean and variance over exactly the trailing block / spatial block / consecutive-channel group), batch_norm on rank 4 and bilinear on rank-2 inputs. Tied to the headers by a differential run of every routine (model + nested-loop oracle) on every check.',
-    note='Lean kernel + propext/Classical.choice/Quot.sound; model hand-written, fidelity rests on the correspondence run; theorems about softmax / norms / linear / distances are about term selection and fold order over abstract operations (float tolerance 4 ulp x terms is the harness\'s); four defects found by this check were repaired in /repo (fixes/C17-*.diff), one more fix is proposed (fixes/C17-bilinear-lead-axes.diff); three known findings remain (conv group interleaving for O/groups > 1, batch_norm on rank 2/3 inputs, bilinear on rank >= 4 inputs).',
+    note='Lean kernel + propext/Classical.choice/Quot.sound; model hand-written, fidelity rests on the correspondence run; theorems about softmax / norms / linear / distances are about term selection and fold order over abstract operations (float tolerance 4 ulp x terms is the harness\'s); five defects found by this check were repaired in /repo (fixes/C17-*.diff); two known findings remain (conv group interleaving for O/groups > 1, batch_norm on rank 2/3 inputs).',
     technique='Lean 4 proofs over the mirrored convnd / pool2d index pipeline and over compositions of the C06-C08 / C16 models (Mathlib ring tactic in lemma files only) + differential correspondence (IMPL vs Lean MODEL at Float32 / Int vs independent nested-loop NumPy oracle)')
 
 H_C1, H_C2A, H_C2B, H_POOL, H_NORM, H_LIN = 'h_c17_conv1d', 'h_c17_conv2d_nb', 'h_c17_conv2d_b', 'h_c17_pool', 'h_c17_norm', 'h_c17_lin'
@@ -498,9 +498,7 @@ def gen_linear(tier, rng):
                                                                                            'None' if bias is None else fmt(bias), '' if bias is None else ' cs=%d' % O),
                              H_LIN, oracle=fres(out), tags=['bilinear', 'rank=%d' % (len(lead_b) + 1), 'bias' if bias else 'nobias', 'dt=' + dt])
                     if k_bilinear_lead(c):
-                        # known defect class: the oracle is the judge; the model mirrors the unrepaired code and would
-                        # disagree with a repaired tree, so it is not consulted here
-                        c.dom = False; c.model = False
+                        c.tags = list(c.tags) + ['bilinear.lead-axes-regression']     # class of the repaired defect (fix 908c6a6): in-domain now
                     yield c
             # pairwise_distance / cosine_similarity
             D = rng.randint(1, 5)
